@@ -591,7 +591,15 @@ def _copy_sum(P, i, p):
   return s.copy() - s
 
 
+def _hub_unary_plus(P, i, p):
+  # a hub used through a unary operator AND once more as it is: |x| + x
+  x = P.ls.thub(S(P, i[0]), 2)
+  return getattr(operator, p["op"])(x) + x
+
+
 stage("thub_expr")((_thub_expr, lambda i, p: M.m_each(i)))
+stage("hub_unary_plus", params=lambda W: {"op": W.pick("unop", ANY_UNOPS)})(
+  (_hub_unary_plus, lambda i, p: M.m_each(i)))
 stage("tee_sum")((_tee_sum, lambda i, p: M.m_each(i)))
 stage("copy_sum")((_copy_sum, lambda i, p: M.m_each(i)))
 stage("poly_call_stream")(
